@@ -105,7 +105,7 @@ def _nodes(ob):
     return out
 
 
-def merge_pass(ob, log, budget_ms=3000):
+def merge_pass(ob, log, budget_ms=2000):
     """Ackermann / atom unification: two nodes of the same kind share one z3 constant when their arguments are
     proved pairwise equal under the hypotheses (tiny sub-queries, logged).  Missing a merge is sound.
     returns {node id -> representative node}"""
@@ -118,6 +118,8 @@ def merge_pass(ob, log, budget_ms=3000):
     if all(c < 2 for c in count.values()): return parent
     zu = Z(); solver = None
     reps_by = {}
+    rmemo = {}
+    penv = []
     for n in nodes:
         k = (n.op, n.a[0], len(n.a)) if n.op == 'app' else (n.op,)
         reps = reps_by.setdefault(k, [])
@@ -129,10 +131,15 @@ def merge_pass(ob, log, budget_ms=3000):
                 ok = True
             elif any(x.op == 'c' and y.op == 'c' for x, y in diff):
                 ok = False
+            elif all(_ring_eq_merged(x, y, parent, rmemo) for x, y in diff):
+                ok = True
+                log.append(dict(kind='merge', node=brief(n, 60), with_=brief(r, 60), ok=True, by='ring-normal-form'))
             else:
+                differs = _numerically_different(diff, ob, penv)
                 if solver is None:
-                    solver = z3.Solver(); solver.set('timeout', budget_ms)
+                    solver = z3.Solver()
                     solver.add(*[zu.b(h) for h in ob.hyps])
+                solver.set('timeout', 250 if differs else budget_ms)
                 solver.push()
                 solver.add(z3.Or(*[zu.t(x) != zu.t(y) for x, y in diff])); solver.add(*zu.side)
                 t0 = time.time(); ok = solver.check() == z3.unsat
@@ -145,6 +152,45 @@ def merge_pass(ob, log, budget_ms=3000):
         else:
             reps.append(n)
     return parent
+
+
+def _numerically_different(diff, ob, penv):
+    """cheap pre-filter: do the argument pairs differ at random points (ignoring the hypotheses)?  Only used to give
+    hopeless merge queries a small budget - skipping a merge is always sound."""
+    if not penv:
+        rng = random.Random(12345)
+        xs = list(ob.hyps) + [ob.goal]
+        fv = free_vars(*xs)
+        apps = collect(xs, lambda n: isinstance(n, T) and n.op == 'app')
+        for _ in range(3):
+            env = {}
+            for n, t in fv.items():
+                lo, hi = default_range(n, t.a[1]); env[n] = rng.randint(int(lo), int(hi)) if t.a[1] == 'I' else rng.uniform(lo, hi)
+            for a in apps:
+                lo, hi = default_range(a.a[0], 'R'); env[('#', a.id)] = rng.uniform(lo, hi)
+            penv.append(env)
+    votes = 0
+    for env in penv:
+        try:
+            memo = {}
+            if any(abs(ev(x, env, memo) - ev(y, env, memo)) > 1e-6 * max(1.0, abs(ev(x, env, memo))) for x, y in diff): votes += 1
+        except EvalError:
+            pass
+    return votes == len(penv)
+
+
+def _ring_eq_merged(x, y, parent, rmemo):
+    """x == y as rational functions, where already merged application/atom nodes are replaced by their representatives"""
+    from .ir import ring_equal, subst
+    if parent:
+        m = {('#', i): r for i, r in parent.items()}
+        key = len(parent)
+        sm = rmemo.setdefault(('s', key), {})
+        x = subst(x, m, sm); y = subst(y, m, sm)
+    try:
+        return ring_equal(x, y, rmemo.setdefault(('r', len(parent)), {}))
+    except RecursionError:
+        return False
 
 
 def lemma_pass(ob, zz, log, budget_ms=5000):
@@ -165,9 +211,9 @@ def lemma_pass(ob, zz, log, budget_ms=5000):
     return extra
 
 
-def build_query(ob, log):
+def build_query(ob, log, parent=None):
     zz = Z(); zz.mono = ob.meta.get('schema')      # None | 'point' | 'mono': exp/log schema instances (DESIGN 2.3)
-    parent = merge_pass(ob, log)
+    if parent is None: parent = merge_pass(ob, log)
     for n in _nodes(ob):
         if n.id in parent: zz.rep[n.id] = zz.fresh_for(parent[n.id])
         else: zz.fresh_for(n)
@@ -256,7 +302,7 @@ def run_cli(cmd, text, timeout):
         os.unlink(p)
 
 
-def solve_one(ob, timeout_s=60, second=False, seed=0):
+def _solve_atomic(ob, timeout_s=60, second=False, seed=0, parent=None):
     """returns a result dict; never raises"""
     t0 = time.time(); log = []
     res = dict(name=ob.name, prop=ob.prop, expect=ob.expect, status='undecided', backend=None, detail='', meta=ob.meta)
@@ -280,17 +326,30 @@ def solve_one(ob, timeout_s=60, second=False, seed=0):
             if early and early.get('status') == 'refuted':
                 res.update(early); res['backend'] = 'numeric-sampling'; res['time'] = round(time.time() - t0, 3); res['sublog'] = log
                 return res
+        if ob.expect == 'unsat' and not ob.meta.get('noring'):
+            # callee applications / exp-log atoms with provably equal arguments are identified first, then the ring normal form is tried again
+            try:
+                par = parent if parent is not None else merge_pass(ob, log)
+                parent = par
+                if par:
+                    from .ir import ring_proves, subst
+                    g2 = subst(ob.goal, {('#', i): r_ for i, r_ in par.items()})
+                    if ring_proves(g2):
+                        res['status'] = 'discharged'; res['backend'] = 'ring-normal-form(after merging applications)'; res['time'] = round(time.time() - t0, 3); res['sublog'] = log
+                        return res
+            except RecursionError:
+                pass
         # hypothesis slicing: first without the (redundant, separately proved) disequalities of the path condition -
         # fewer hypotheses make a stronger statement, so `unsat` there is a valid discharge; `sat` there means nothing
         slim = [h for h in ob.hyps if not (h.op == 'cmp' and h.a[0] == '!=')]
         if ob.expect == 'unsat' and len(slim) < len(ob.hyps) and not ob.meta.get('noslice'):
             ob2 = Ob(ob.name, slim, ob.goal, ob.prop, ob.expect, ob.meta, ob.lemmas)
-            zz2, cons2 = build_query(ob2, log)
+            zz2, cons2 = build_query(ob2, log, parent)
             s0 = z3.Solver(); s0.set('timeout', int(timeout_s * 300)); s0.add(*cons2)
             if s0.check() == z3.unsat:
                 r = z3.unsat; backend += '(sliced hypotheses)'; smt2 = s0.to_smt2(); res['smt2_bytes'] = len(smt2)
         if r != z3.unsat:
-            zz, cons = build_query(ob, log)
+            zz, cons = build_query(ob, log, parent)
             s = z3.Solver(); s.set('timeout', int(timeout_s * 500)); s.set('random_seed', seed % 1000)
             s.add(*cons)
             smt2 = s.to_smt2()
@@ -448,6 +507,66 @@ def numeric_probe(ob, seed, tries=4000, want=200):
             continue
         if hits >= want: break
     return dict(detail='solver undecided; %d admissible random points agree' % hits)
+
+
+def _ring_equiv_to_hyp(x, hyps, rm):
+    """conjunct  a' ~ b'  follows from a hypothesis  a ~ b  (same relation) when a' - b' == a - b as rational functions"""
+    from .ir import ring_equal
+    if x.op != 'cmp': return False
+    k, a2, b2 = x.a
+    for h in hyps:
+        cands = h.a if h.op == 'and' else (h,)
+        for c in cands:
+            if c.op == 'cmp' and c.a[0] == k:
+                try:
+                    if ring_equal(a2 - b2, c.a[1] - c.a[2], rm): return True
+                except RecursionError:
+                    return False
+    return False
+
+
+def solve_one(ob, timeout_s=60, second=False, seed=0):
+    """conjunctive goals are proved conjunct by conjunct (each: ring normal form, sampling, z3); the obligation is discharged
+    when every conjunct is, refuted as soon as one conjunct is refuted"""
+    g = ob.goal
+    if ob.expect != 'unsat' or g.op != 'and' or len(g.a) < 2 or ob.meta.get('nosplit'):
+        return _solve_atomic(ob, timeout_s, second, seed)
+    t0 = time.time()
+    from .ir import ring_proves
+    hyp_ids = {h.id for h in ob.hyps}
+    rm = {}
+    parts = [x for x in g.a if x.id not in hyp_ids and not ring_proves(x, rm) and not _ring_equiv_to_hyp(x, ob.hyps, rm)]
+    if not parts:
+        return dict(name=ob.name, prop=ob.prop, expect=ob.expect, status='discharged', backend='ring-normal-form', detail='', meta=ob.meta,
+                    time=round(time.time() - t0, 3), sublog=[])
+    out = None; backends = set(['ring-normal-form'] if len(parts) < len(g.a) else []); sub = []
+    undec = None
+    if not ob.meta.get('noprobe'):
+        early = numeric_probe(ob, seed, tries=600, want=40)
+        if early and early.get('status') == 'refuted':
+            return dict(name=ob.name, prop=ob.prop, expect=ob.expect, status='refuted', backend='numeric-sampling', detail=early['detail'], model=early.get('model'),
+                        meta=ob.meta, time=round(time.time() - t0, 3), sublog=[])
+    try: parent = merge_pass(ob, sub)
+    except RecursionError: parent = None
+    meta2 = dict(ob.meta); meta2['noprobe'] = True
+    for i, x in enumerate(parts):
+        r = _solve_atomic(Ob(ob.name, ob.hyps, x, ob.prop, ob.expect, meta2, ob.lemmas), timeout_s, second, seed, parent)
+        sub.extend(r.get('sublog', [])[:6])
+        if r.get('backend'): backends.add(r['backend'])
+        if r['status'] in ('refuted', 'error', 'disagree'):
+            r['detail'] = "conjunct %d of %d: %s | %s" % (i + 1, len(parts), brief(x, 160), r.get('detail', ''))
+            r['time'] = round(time.time() - t0, 3)
+            return r
+        if r['status'] != 'discharged' and undec is None:
+            undec = r; undec['detail'] = "conjunct %d of %d: %s | %s" % (i + 1, len(parts), brief(x, 160), r.get('detail', ''))
+        if time.time() - t0 > timeout_s * 1.4 and i + 1 < len(parts):
+            if undec is None: undec = dict(r, status='undecided', detail='budget exhausted after %d of %d conjuncts' % (i + 1, len(parts)))
+            break
+    if undec is not None:
+        undec['time'] = round(time.time() - t0, 3); undec['status'] = 'undecided'
+        return undec
+    return dict(name=ob.name, prop=ob.prop, expect=ob.expect, status='discharged', backend='+'.join(sorted(backends)), detail='%d conjuncts' % len(g.a), meta=ob.meta,
+                time=round(time.time() - t0, 3), sublog=sub[:20])
 
 
 # ------------------------------------------------------------------------------------------------ scheduler
